@@ -195,7 +195,7 @@ TrRunEnd ==
 \* cross-run comparisons computed by the harness (dry vs real, batch vs chain, perturbed vs reference run, second run)
 TrCompare ==
   /\ IsEv("Compare")
-  /\ pc = "done"
+  /\ pc \in {"done", "stopped"}
   /\ UNCHANGED <<vars, expect, changed, sites>>
   /\ Advance(Fails(<< <<Ev.equal, "Compare:" \o Ev.what>> >>))
 
